@@ -273,6 +273,29 @@ def run_model(case):
                 if not err < 1e-12:
                     c.bad(f"{slab}/{fname}/out={hist}", f"{fname}(out=buffer) differs from {fname}(out=None)", float(err), 0, 1e-12)
                 c.nontrivial.append(f"{slab}/{fname}/out={hist}")
+    # parameters re-assigned through the public `kwargs` container of a long-lived object (what optimize() and the views do):
+    # whatever the object then uses, its tangent must stay the derivative of ITS stress and the stress of ITS energy
+    um3 = e["make"]()
+    kw3 = getattr(um3, "kwargs", None)
+    if isinstance(kw3, dict) and kw3 and (e["backend"] == "hand" or case["tier"] == "thorough" or e["name"] in ("tt.neo_hooke#0", "tt.mooney_rivlin#0", "tt.yeoh#0")):
+        changed = []
+        for k_, v_ in list(kw3.items()):
+            if isinstance(v_, (int, float)) and not isinstance(v_, bool) and v_ != 0:
+                kw3[k_] = v_ * 1.5
+                changed.append(k_)
+        if changed:
+            slab, maker = e["states"][0]
+            sv3 = state_for(e, um3, slab, maker, n, case["seed"])
+            P3 = np.asarray(um3.gradient([F, sv3])[0], dtype=float)
+            A3 = np.asarray(um3.hessian([F, sv3])[0], dtype=float)
+            Afd3 = fd_dirs(lambda FF: np.asarray(um3.gradient([FF, sv3])[0], dtype=float), F)
+            c.trans += 38
+            compare_tangent(c, "kwargs-reassigned/dPdF", A3, Afd3, labels, f"elasticity vs FD of the stress after the parameters {changed} were re-assigned through .kwargs")
+            if hasattr(um3, "function") and e["energy"] is not None and e["backend"] == "hand":
+                Pfd3 = fd_dirs(lambda FF: np.asarray(um3.function([FF, sv3])[0], dtype=float), F)
+                c.trans += 36
+                compare_tangent(c, "kwargs-reassigned/dWdF", P3, Pfd3, labels, "stress vs FD of the object's own energy after parameters were re-assigned through .kwargs")
+            c.outcomes.add("kwargs-reassigned")
     return c.result(dict(case=case["key"], lattice_points=n, states=[s for s, _ in e["states"]], backend=e["backend"], first=labels[:3]))
 
 
